@@ -8,6 +8,7 @@ import os, json, math
 
 LOG_ENV = 'XYZV_CALLLOG'
 FAIL_ENV = 'XYZV_FAILFILE'
+STAGGER_ENV = 'XYZV_STAGGER'      # seconds: calls for odd-numbered combinations take this long (completion order != submission order)
 
 
 def log_path():
@@ -104,6 +105,10 @@ class Rec:
     def __call__(self, **kw):
         _append({k: (v if isinstance(v, (int, float, str, bool, type(None))) else repr(v)) for k, v in kw.items()})
         c = self.code(kw)
+        st = os.environ.get(STAGGER_ENV)
+        if st and c % 2 == 1:
+            import time
+            time.sleep(float(st))
         if c in self.spec.get('fail_codes', ()):
             raise ValueError('boom')
         ff = os.environ.get(FAIL_ENV)
